@@ -652,7 +652,7 @@ class Exec:
                 seams.clear_caches()
             tracer = None
             if self.record_lines or (f.get('at') == 'line'):
-                tracer = seams.LineTracer(proc, record=False)
+                tracer = seams.LineTracer(proc, record=self.record_lines)
             exit_kind, exc_info = 'returned', None
             del captured[:]
             t_start = sim.clock.now()
@@ -711,6 +711,10 @@ class Exec:
                 'fired': proc.fired, 'n_io': proc.n_io,
                 'n_line': proc.n_line, 'n_trial': proc.n_trial,
                 'trace': proc.trace, 'file_after': fcls_after,
+                'first_lines': (sorted(tracer.first.values())
+                                if tracer is not None else []),
+                'core_lines': (list(tracer.core)
+                               if tracer is not None else []),
             })
             if not fired and exit_kind != 'returned':
                 self.violate('run_raised', {
@@ -863,12 +867,29 @@ def faults_for(info, tier, rng, is_results):
     for j in range(info['n_trial']):
         out.append({'kind': 'kill', 'at': 'trial', 'event': j})
         out.append({'kind': 'ki', 'at': 'trial', 'event': j})
+    # Ctrl-C shortly after a function is entered for the first time in this
+    # process: that is where lazily built state (code matrices, decoder
+    # set-up, cached tables) is built
+    for fidx in info.get('first_lines') or []:
+        for off in (1, 9, 45, 220):
+            if fidx + off < info['n_line']:
+                out.append({'kind': 'ki', 'at': 'line', 'event': fidx + off,
+                            'aim': 'first_activation'})
     nl = info['n_line']
     if nl:
+        # densely in the batch / simulation layer, sparsely elsewhere in the
+        # package (code classes, decoders, noise models)
         stride = 1 if tier == 'thorough' else 7
         off = rng.randrange(stride)
-        for j in range(off, nl, stride):
+        core = info.get('core_lines') or list(range(nl))
+        for j in core[off::stride]:
             out.append({'kind': 'ki', 'at': 'line', 'event': j})
+        core_set = set(core)
+        others = [j for j in range(nl) if j not in core_set]
+        for j in rng.sample(others, min(len(others),
+                                        40 if tier == 'quick' else 400)):
+            out.append({'kind': 'ki', 'at': 'line', 'event': j,
+                        'aim': 'elsewhere_in_package'})
         for _ in range(4 if tier == 'quick' else 30):
             out.append({'kind': 'ki', 'at': 'line',
                         'event': rng.randrange(nl),
@@ -937,13 +958,17 @@ def explore_workload(job):
     if len(lvl1) > budget:
         # stratified sample: crash points inside writes first
         summ['complete'] = False
-        strata = {'kill_io': [], 'ki_io': [], 'trial': [], 'line': []}
+        strata = {'kill_io': [], 'ki_io': [], 'trial': [], 'line': [],
+                  'first': [], 'other': []}
         for idx, f in lvl1:
-            k = ('line' if f['at'] == 'line' else 'trial'
+            k = ('first' if f.get('aim') == 'first_activation' else
+                 'other' if f.get('aim') else
+                 'line' if f['at'] == 'line' else 'trial'
                  if f['at'] == 'trial' else
                  'ki_io' if f['kind'] == 'ki' else 'kill_io')
             strata[k].append((idx, f))
-        share = {'kill_io': 0.5, 'ki_io': 0.12, 'trial': 0.1, 'line': 0.28}
+        share = {'kill_io': 0.4, 'ki_io': 0.08, 'trial': 0.07, 'line': 0.27,
+                 'first': 0.12, 'other': 0.06}
         picked, rest = [], []
         for k in sorted(strata):
             rng.shuffle(strata[k])
@@ -1143,8 +1168,8 @@ JOB_TIMEOUT = 2400
 
 
 def make_jobs(tier, seed):
-    n = 72 if tier == 'quick' else 2400
-    budget = 100 if tier == 'quick' else 450
+    n = 80 if tier == 'quick' else 2400
+    budget = 110 if tier == 'quick' else 450
     jobs = [{'wseed': H(seed, PROP, 'w', i), 'tier': tier, 'budget': budget}
             for i in range(n)]
     n_xv = 48 if tier == 'quick' else 960
